@@ -607,7 +607,7 @@ func c23ReaderFuncs(c *core.Ctx, pkg string) (has, get []*core.FuncInfo) {
 // c23Lookup finds the single library lookup call (callee in the library package, method Get/Has) of a reader function.
 func c23Lookup(f *core.FuncInfo, lib string) *core.CallSite {
 	cs := f.CallsMatching(func(x *core.CallSite) bool {
-		return strings.HasPrefix(x.Name, lib) && (methodNamed(x.Name, "Get") || methodNamed(x.Name, "Has"))
+		return (methodNamed(x.Name, "Get") || methodNamed(x.Name, "Has")) && c23OnLibrary(x, lib)
 	})
 	if len(cs) != 1 {
 		return nil
@@ -1030,20 +1030,31 @@ func c23RangeClause(c *core.Ctx) {
 			h := c.Fn(pkg + ".bytesPrefixRange")
 			pPrefix, pStart := h.Param(0), h.Param(1)
 			c.Need(pPrefix != nil && pStart != nil, be+".bytesPrefixRange(prefix, start)")
+			// pebble has no library prefix helper: the module's own successor computation is located by what it
+			// does (c23FindSuccessor); it is "the prefix helper" whether it returns the range or only the bound
+			var succ *c23Succ
+			if pkg == c23Pbl {
+				var why string
+				succ, why = c23FindSuccessor(p, pkg, lower, upper)
+				c.Need(succ != nil, why)
+				prefixHelper = succ.g.Name
+			}
 			// callers: the NewIterator methods pass (prefix, start) in the same roles and hand the range to the library
 			for _, f := range p.FuncsInPkg(pkg) {
 				for _, cs := range f.CallsTo(pkg + ".bytesPrefixRange") {
 					nCallers++
 					who := c23Short(f.Name)
-					okRoles := f.Obj != nil && f.Obj.Name() == "NewIterator" && len(cs.Call.Args) == 2 &&
-						f.Param(0) != nil && varOf(f, cs.Call.Args[0]) == f.Param(0) && varOf(f, cs.Call.Args[1]) == f.Param(1)
+					// NewIterator's own parameters, or the parameters of an unexported function every call of which
+					// passes them in these roles (the construction shared by store and snapshot: c23IterRole)
+					okRoles := len(cs.Call.Args) == 2 &&
+						c23IterRole(f, varOf(f, cs.Call.Args[0]), 2) == 1 && c23IterRole(f, varOf(f, cs.Call.Args[1]), 2) == 2
 					c.Check(okRoles, who+"|passes (prefix, start) in order", "T16b SiblingAgreement", cs.Pos(), "bytesPrefixRange(prefix, start) with NewIterator's own parameters in this order", "prefix and start are swapped or replaced: the iteration range differs from the sibling backend")
 					okLib := false
 					for _, lc := range f.CallsMatching(func(x *core.CallSite) bool {
-						return (strings.HasPrefix(x.Name, c23LibL) || strings.HasPrefix(x.Name, c23LibP)) && (methodNamed(x.Name, "NewIterator") || methodNamed(x.Name, "NewIter"))
+						return (methodNamed(x.Name, "NewIterator") || methodNamed(x.Name, "NewIter")) && (c23OnLibrary(x, c23LibL) || c23OnLibrary(x, c23LibP))
 					}) {
 						for _, a := range lc.Call.Args {
-							if ast.Unparen(a) == ast.Expr(cs.Call) {
+							if ast.Unparen(a) == ast.Expr(cs.Call) || ast.Unparen(resolveLocal(f, a)) == ast.Expr(cs.Call) {
 								okLib = true
 							}
 						}
@@ -1062,6 +1073,24 @@ func c23RangeClause(c *core.Ctx) {
 				uses := f.SitesMay(func(x *core.CallSite) bool { return x.Name == pkg+".bytesPrefixRange" }, 2)
 				c.Check(len(uses) > 0, c23Short(f.Name)+"|range comes from bytesPrefixRange", "T16b SiblingAgreement", f.Pos(), "NewIterator obtains its range from the backend's bytesPrefixRange", "this NewIterator does not compute its range with bytesPrefixRange: prefix/start are translated differently from its siblings")
 			}
+			// Two ways to decide the helper's body. (1) The range is the prefix helper's result with start appended
+			// to its lower-bound field (field assignments, decided flow-insensitively below). (2) Any other
+			// assembly — a composite literal, multi-definition locals, the successor computed apart from the
+			// range — is decided by the data-flow c23RangeFlow. The obligations of (1) are collected first and
+			// reported unless (1) does not hold and (2) decides that every exit hands out the right range.
+			type c23Chk struct {
+				ok                           bool
+				key, rule, passText, failTxt string
+				pos                          token.Pos
+			}
+			var chks []c23Chk
+			legacyOK := true
+			check := func(ok bool, key, rule string, pos token.Pos, passText, failTxt string) {
+				chks = append(chks, c23Chk{ok, key, rule, passText, failTxt, pos})
+				if !ok {
+					legacyOK = false
+				}
+			}
 			// the prefix helper is applied to the prefix parameter
 			ph := h.CallsTo(prefixHelper)
 			okPH := len(ph) >= 1
@@ -1070,7 +1099,7 @@ func c23RangeClause(c *core.Ctx) {
 					okPH = false
 				}
 			}
-			c.Check(okPH, be+".bytesPrefixRange|bounds come from the prefix helper", "T16b SiblingAgreement", h.Pos(), short(prefixHelper)+"(prefix) supplies lower bound = prefix and upper bound = successor(prefix)", "the bounds are not derived from "+short(prefixHelper)+"(prefix)")
+			check(okPH, be+".bytesPrefixRange|bounds come from the prefix helper", "T16b SiblingAgreement", h.Pos(), short(prefixHelper)+"(prefix) supplies lower bound = prefix and upper bound = successor(prefix)", "the bounds are not derived from "+short(prefixHelper)+"(prefix)")
 			// lower bound: the value assigned to it is <something> followed by start (append/copy idioms evaluated
 			// symbolically, through straight-line helpers of the module: c23EvalBytes)
 			var appends []assignment
@@ -1082,14 +1111,14 @@ func c23RangeClause(c *core.Ctx) {
 					vals[a.Stmt] = val
 				}
 			}
-			c.Check(len(appends) >= 1, be+".bytesPrefixRange|lower bound = prefix || start", "T16b SiblingAgreement", h.Pos(), "the lower bound is assigned <lower bound> followed by start", "start is not appended to the lower bound: iteration does not begin at prefix||start")
+			check(len(appends) >= 1, be+".bytesPrefixRange|lower bound = prefix || start", "T16b SiblingAgreement", h.Pos(), "the lower bound is assigned <lower bound> followed by start", "start is not appended to the lower bound: iteration does not begin at prefix||start")
 			for _, a := range appends {
 				val := vals[a.Stmt]
 				// what precedes start is exactly the prefix's lower bound (the field set from the prefix, or the prefix)
 				okBase := len(val.Parts) == 2 && (val.Parts[0].Field == lower || (val.Parts[0].V != nil && val.Parts[0].V == pPrefix))
 				// built in memory the helper allocated itself (copy first, append to a fresh or capacity-capped base)
 				private := okBase && val.Fresh
-				c.Check(okBase, be+".bytesPrefixRange|start is appended to the prefix bound", "T16b SiblingAgreement", a.Stmt.Pos(), "what precedes start is the lower bound set from the prefix", "start is appended to something else than the prefix's lower bound")
+				check(okBase, be+".bytesPrefixRange|start is appended to the prefix bound", "T16b SiblingAgreement", a.Stmt.Pos(), "what precedes start is the lower bound set from the prefix", "start is appended to something else than the prefix's lower bound")
 				// every non-nil return is reached through the append, and through the prefix helper or the prefix == nil edge
 				for _, rp := range h.ReturnPoints() {
 					r := rp.Node().(*ast.ReturnStmt)
@@ -1098,7 +1127,7 @@ func c23RangeClause(c *core.Ctx) {
 					}
 					ok1, w1 := h.MustPassBefore(pointsOfAssign(appends), rp)
 					_, skip := core.PathQuery{F: h, From: h.Entry(), Target: core.PointSet(rp), Avoid: core.PointSet(core.Points(ph)...), AvoidEdge: h.GuardEdges(varNilFact(h, pPrefix, true))}.Find()
-					c.Check(ok1 && !skip, be+".bytesPrefixRange|every range has both steps", "T2 Dominates", r.Pos(), "each returned range passed the prefix helper (or prefix == nil) and the start append", "a range can be returned without the prefix bounds or without start appended: "+h.DescribePath(w1))
+					check(ok1 && !skip, be+".bytesPrefixRange|every range has both steps", "T2 Dominates", r.Pos(), "each returned range passed the prefix helper (or prefix == nil) and the start append", "a range can be returned without the prefix bounds or without start appended: "+h.DescribePath(w1))
 				}
 				// aliasing: the append must not write into the caller's prefix slice
 				if !private && c23HelperCopies(c, prefixHelper, lower) {
@@ -1107,14 +1136,39 @@ func c23RangeClause(c *core.Ctx) {
 				if !private {
 					// the only safe non-private case: the base was freshly allocated on every path (pebble's prefix == nil branch);
 					// the prefix helper aliases its argument (library contract / local literal LowerBound: prefix)
-					c.Fail(be+".bytesPrefixRange|lower bound is built in private memory", "alias", a.Stmt.Pos(),
+					check(false, be+".bytesPrefixRange|lower bound is built in private memory", "alias", a.Stmt.Pos(), "",
 						"the prefix helper returns the caller's prefix slice itself as lower bound and append(lowerBound, start...) writes start into that slice's spare capacity: NewIterator(buf[:2], []byte(\"X\")) with buf = \"ab-zz\" turns the caller's buffer into \"abXzz\" (memorydb copies the prefix first and leaves it unchanged); with a shared prefix slice two concurrent NewIterator calls race on the bound")
 				} else {
-					c.Pass(be+".bytesPrefixRange|lower bound is built in private memory", "alias", "start is appended to a private copy of the prefix bound")
+					check(true, be+".bytesPrefixRange|lower bound is built in private memory", "alias", token.NoPos, "start is appended to a private copy of the prefix bound", "")
 				}
 			}
 			// the upper bound is left to the prefix helper
-			c.Check(len(assignsToField(h, upper)) == 0, be+".bytesPrefixRange|upper bound = prefix successor", "T16b SiblingAgreement", h.Pos(), "the upper bound is only what the prefix helper computed", "the upper bound is overwritten after the prefix helper: iteration no longer ends at the prefix's successor")
+			check(len(assignsToField(h, upper)) == 0, be+".bytesPrefixRange|upper bound = prefix successor", "T16b SiblingAgreement", h.Pos(), "the upper bound is only what the prefix helper computed", "the upper bound is overwritten after the prefix helper: iteration no longer ends at the prefix's successor")
+			flowOK := false
+			if !legacyOK {
+				libHelper := ""
+				if succ == nil {
+					libHelper = prefixHelper
+				}
+				decided, ok, why, _ := c23RangeFlow(h, lower, upper, libHelper, succ)
+				flowOK = decided && ok
+				if !decided {
+					c.Note("C23.range: %s.bytesPrefixRange is not assembled by field assignments and the data-flow view gave up (%s)", be, why)
+				}
+			}
+			if flowOK {
+				for _, k := range []string{"bounds come from the prefix helper", "lower bound = prefix || start", "start is appended to the prefix bound", "every range has both steps", "lower bound is built in private memory", "upper bound = prefix successor"} {
+					c.Pass(be+".bytesPrefixRange|"+k, "data-flow (symbolic provenance of the bounds)", "at every exit the lower bound is prefix followed by start in memory the helper allocated, and the upper bound is the prefix's successor (absent only on prefix == nil)")
+				}
+			} else {
+				for _, k := range chks {
+					if k.ok {
+						c.Pass(k.key, k.rule, k.passText)
+					} else {
+						c.Fail(k.key, k.rule, k.pos, k.failTxt)
+					}
+				}
+			}
 			// nil (unbounded) only for prefix == nil && start == nil
 			for _, rp := range h.ReturnPoints() {
 				r := rp.Node().(*ast.ReturnStmt)
@@ -1128,43 +1182,16 @@ func c23RangeClause(c *core.Ctx) {
 		c.ExpectAtLeast("call sites of bytesPrefixRange", nCallers, 1)
 		c.ExpectAtLeast("NewIterator methods of the two disk backends (store and snapshot roles)", nIteratees, 4)
 
-		// pebble's local copy of the prefix successor
-		bp := c.Fn(c23Pbl + ".bytesPrefix")
-		pp := bp.Param(0)
-		var lit *ast.CompositeLit
-		for _, rp := range bp.ReturnPoints() {
-			r := rp.Node().(*ast.ReturnStmt)
-			if len(r.Results) == 1 {
-				if cl, ok := ast.Unparen(r.Results[0]).(*ast.CompositeLit); ok {
-					lit = cl
-				}
-			}
+		// pebble's local copy of the prefix successor, located by what it does (c23FindSuccessor): it may return
+		// the library range (lower bound = the prefix itself, upper bound = the successor) or only the bound
+		sc, whySucc := c23FindSuccessor(p, c23Pbl, c23RangeFields[c23Pbl][0], c23RangeFields[c23Pbl][1])
+		c.Need(sc != nil, whySucc)
+		bp, pp, lim, loop := sc.g, sc.pp, sc.lim, sc.loop
+		if sc.lit != nil {
+			c.Check(sc.low != nil && varOf(bp, sc.low) == pp, "pebble.bytesPrefix|lower bound is the prefix", "provenance", sc.lit.Pos(), "LowerBound: prefix", "the lower bound is not the prefix")
+		} else {
+			c.Pass("pebble.bytesPrefix|lower bound is the prefix", "provenance", "the successor function returns the upper bound only; the lower bound is decided in bytesPrefixRange")
 		}
-		c.Need(lit != nil && len(bp.ReturnPoints()) == 1, "pebble.bytesPrefix returns one IterOptions literal")
-		var lowV, upV ast.Expr
-		for _, el := range lit.Elts {
-			if kv, ok := el.(*ast.KeyValueExpr); ok {
-				if v, ok := bp.Info().ObjectOf(kv.Key.(*ast.Ident)).(*types.Var); ok {
-					switch p.FieldName(v) {
-					case c23RangeFields[c23Pbl][0]:
-						lowV = kv.Value
-					case c23RangeFields[c23Pbl][1]:
-						upV = kv.Value
-					}
-				}
-			}
-		}
-		c.Check(lowV != nil && varOf(bp, lowV) == pp, "pebble.bytesPrefix|lower bound is the prefix", "provenance", lit.Pos(), "LowerBound: prefix", "the lower bound is not the prefix")
-		lim := varOf(bp, upV)
-		c.Need(lim != nil, "pebble.bytesPrefix: UpperBound is a local variable")
-		var loop *ast.ForStmt
-		bp.InspectOwn(func(n ast.Node) bool {
-			if fs, ok := n.(*ast.ForStmt); ok && loop == nil {
-				loop = fs
-			}
-			return true
-		})
-		c.Need(loop != nil, "pebble.bytesPrefix scans the prefix in a for loop")
 		// scan from the last byte downwards
 		var idx *types.Var
 		okScan := false
@@ -1357,6 +1384,43 @@ func c23ReplayClause(c *core.Ctx) {
 					}
 				}
 				c.Check(g && okArgs, "kind "+o.what, "T4 GuardedBy + provenance", x.Pos(), "forwarded only for this kind, with the decoded key/value", "the writer call is not tied to the operation kind or does not pass the decoded key/value: "+where.DescribePath(wit))
+				// the decoded bytes reach the writer with their nil-ness ("empty values are distinct from absent
+				// keys"): every definition of a forwarded variable other than the decode itself is a copy that is
+				// non-nil whenever its source is (CopyBytes, bytes.Clone, append to a non-nil base); append to a nil
+				// slice yields nil for an empty value
+				for i := range o.args {
+					tv := o.args[i]
+					if !okArgs || tv == nil {
+						continue
+					}
+					for _, d := range c23DefsOf(f, tv) {
+						if d.multi && d.rhs != nil && ast.Unparen(d.rhs) == ast.Expr(nextCalls[0].Call) {
+							continue // kind, key, value, ok := reader.Next()
+						}
+						keyName := "kind " + o.what + "|" + tv.Name() + " keeps the decoded nil-ness"
+						pos := x.Pos()
+						if d.rhs != nil {
+							pos = d.rhs.Pos()
+						}
+						isCp, nn := false, -1
+						if d.rhs != nil && !d.multi {
+							for _, src := range []*types.Var{key, val} {
+								if src == nil || isCp {
+									continue
+								}
+								isCp, nn = c23CopyExpr(f, d.rhs, src)
+							}
+						}
+						switch {
+						case !isCp:
+							c.Undecided(keyName, "alias (empty vs absent)", pos, "the decoded "+tv.Name()+" is overwritten before it is forwarded by something that is not recognised as a copy of the decoded bytes")
+						case nn == 0:
+							c.Fail(keyName, "alias (empty vs absent)", pos, "the decoded "+tv.Name()+" is replaced by a copy appended to a nil slice ("+exprStr(d.rhs)+"), which is nil when the decoded slice is empty: a batch holding Put(k, []byte{}) replays w.Put(k, nil) — the memory store rejects it (\"key or value is nil\") and the replay stops, the memory batch records a delete — while the LevelDB and memory batches replay the put of an empty value")
+						default:
+							c.Pass(keyName, "alias (empty vs absent)", "the copy forwarded instead of the decoded slice is non-nil whenever that slice is")
+						}
+					}
+				}
 				// the writer's error reaches a variable of Replay
 				up := host == f || c23ReturnsErrorOf(host, x)
 				var ev *types.Var
@@ -1860,6 +1924,9 @@ func c23WrapperClause(c *core.Ctx) {
 				same := f.SitesMust(func(cs *core.CallSite) bool {
 					return c23MethodOf(cs.Name) == m && c23WrappedTarget(cs.F, cs, w.wrapped) != nil
 				}, 2)
+				// … or carried by a function over the wrapped value, or by a literal handed to a function that
+				// always calls it (c23DelegView)
+				same = append(same, (&c23DelegView{p: p, wrapped: w.wrapped, m: m}).points(f, nil, nil, 3)...)
 				switch {
 				case len(same) > 0:
 					// every non-error exit is reached through the same-named delegate
